@@ -298,7 +298,7 @@ Proof.
     destruct (negb (p =? 0) && (negb MONO_FAST_PATH_VALIDATES || gval_is (gget st (s_idx a)) p)); [|exact M].
     destruct (cache_entry (cache st) (s_slot a)) as [e|]; [|exact M].
     destruct (e_clo e).
-    + destruct (hget st p) as [o|]; [|exact M]. destruct (is_clo o); [now apply CE_same|exact M].
+    + destruct (hget st p) as [o|]; [|now apply CE_same]. destruct (is_clo o); now apply CE_same.
     + now apply CE_same.
   - unfold op_call_global_native.
     destruct (p =? 0).
@@ -781,3 +781,62 @@ Lemma native_refuted :
   unique_slots (final spec_step init native_history) = true /\
   ~ Forall2 agree (run step init native_history) (run spec_step init native_history).
 Proof. split; [vm_compute; reflexivity|]. apply not_agree. vm_compute. reflexivity. Qed.
+
+(* ---- the statements Props/C05.v exports ---- *)
+Lemma repl_slot_collision_refuted_lemma :
+  exists h : list event,
+    (forall st, repl_slot_base st = 0) /\
+    ~ Forall2 agree (run step init h) (run spec_step init h) /\
+    nth_error (run step init h) 21 = Some (ORan 12 10) /\
+    nth_error (run spec_step init h) 21 = Some (ORan 10 10).
+Proof.
+  exists repl_history. split; [exact repl_base_zero|]. split; [exact repl_refuted|exact repl_last_call].
+Qed.
+
+Lemma reload_zeroed_slots_refuted_lemma :
+  exists (unit calls : list event) (sids : list N),
+    hist_ok init (unit ++ calls) = true /\
+    ~ Forall2 agree (run step init (unit ++ SaveReload sids :: calls))
+                    (run spec_step init (unit ++ SaveReload sids :: calls)).
+Proof. exists program_unit, program_calls, [0; 1; 2; 3; 4]. exact reload_refuted. Qed.
+
+Lemma native_rebind_stale_refuted_lemma :
+  exists h : list event,
+    unique_slots (final spec_step init h) = true /\
+    ~ Forall2 agree (run step init h) (run spec_step init h).
+Proof. exists native_history. exact native_refuted. Qed.
+
+(* a history inside the guard: two sites, function -> closure -> native rebinding, a collection
+   that frees the old function, a second unit loaded at a fresh slot base, a retired site whose
+   slot is reused *)
+Definition guarded_history : list event :=
+  [Alloc 10 (mkObj KFn 20 []); SetGlobal 0 (GPtr 10);
+   NewUnit [mkDecl false 0 0; mkDecl false 1 0] 0;
+   Call 0; Call 0; Call 1;
+   Alloc 11 (mkObj KClo 21 []); SetGlobal 0 (GPtr 11);
+   Call 0; Call 1; Call 0;
+   Collect [10];
+   Call 0;
+   NewUnit [mkDecl false 0 0] 2; Call 2; Retire [2];
+   NewUnit [mkDecl false 0 0] 2; Call 3;
+   Alloc 58 (mkObj KNat 1 []); SetGlobal 0 (GPtr 58);
+   Call 0; Call 3].
+
+Lemma guarded_history_facts :
+  hist_ok init guarded_history = true /\
+  run step init guarded_history =
+    [ONone; ONone; ONone; ORan 10 10; ORan 10 10; ORan 10 10; ONone; ONone;
+     ORan 11 11; ORan 11 11; ORan 11 11; ONone; ORan 11 11; ONone; ORan 11 11; ONone;
+     ONone; ORan 11 11; ONone; ONone; ONative 58; ONative 58].
+Proof. vm_compute. split; reflexivity. Qed.
+
+(* what the model predicts the real toolchain prints for the two reproduced sessions
+   (corpus/C05/repl_slot_collision.txt, corpus/C05/reload_zeroed_slots.txt): status 2 = stack
+   overflow after 1023 (resp. 1027) printed tags *)
+Lemma witness_predictions :
+  session_obs repl_session =
+    [[0; 0]; [0; 0]; [0; 0]; [0; 2; 22; 20]; [0; 2; 23; 21];
+     2 :: 1023 :: repeat 22 24] /\
+  session_obs (program_session false) = [[0; 6; 22; 20; 23; 21; 22; 20]] /\
+  session_obs (program_session true) = [2 :: 1027 :: [22; 20; 23; 21] ++ repeat 22 20].
+Proof. vm_compute. repeat split; reflexivity. Qed.
